@@ -328,7 +328,9 @@ def rand_expr(rng, d, names):
         return dict(k="Lit", s=[rng.choice(ALPHA) for _ in range(n)], ic=rng.random() < 0.3)
     if k == "Class":
         ms = []
-        for _ in range(rng.choice([0, 1, 2, 3])):
+        if rng.random() < 0.15:       # a character, a range, a dash right after the range, more characters: [_a-c-e]
+            ms = [("c", rng.choice([95, 97, 0xE9])), ("r", 97, 99), ("c", 45), ("c", rng.choice([101, 48]))][rng.randint(0, 1):]
+        for _ in range(rng.choice([0, 1, 2, 3, 4, 5])):
             c = rng.random()
             if c < 0.5:
                 ms.append(("c", rng.choice(ALPHA)))
